@@ -8,11 +8,11 @@ PID = "C14"
 MODULE, PKG, BIN = "freighter/go", "./verifh/c14", "c14"
 COQ_IMPORTS = "From Synnax Require Import Common.Base Freighter.Stream Monitors.Mon_C14."
 CASE_TYPE = "case_t"
-COUNTS = {"quick": 900, "thorough": 30000}
+COUNTS = {"quick": 9000, "thorough": 60000}
 SHARD = 150
 PROCS = 6
 HARNESS_TIMEOUT = 600
-READY = False
+READY = True
 
 TRANSPORTS = ["mock", "ws", "wsm", "grpc", "grpci"]
 T_ID = {t: i for i, t in enumerate(TRANSPORTS)}
@@ -384,7 +384,24 @@ def harness_violation(case, r):
     return None
 
 
+SKIPPED = []   # cases whose client saw a raw transport error (socket torn down after a stall)
+
+
+def _transport_error(case, r):
+    """A client Send / CloseSend on a network transport returned an error that is neither EOF nor StreamClosed:
+    the documented 'transport failed' clause (e.g. the websocket server's 500 ms close handshake expired while
+    this process was stalled). Outside the property's fault-free quantifier."""
+    if case["t"] == "mock":
+        return False
+    cops, _ = split_sides(case)
+    return any(o["a"] in ("send", "close") and ob["k"] == "err" and ob.get("cls") not in (K_EOF, K_CLOSED)
+               for o, ob in zip(cops, r["c"]))
+
+
 def to_coq(case, r):
+    if _transport_error(case, r):
+        SKIPPED.append((case, r))
+        return None
     table = {}
     cops, hops = split_sides(case)
     ret = [o for o in hops if o["a"] == "ret"][0]
@@ -465,6 +482,17 @@ def tags(case, r):
     return set()
 
 
+def extra(ctx):
+    """Raw transport errors are tolerated only as rare accidents of scheduling, never as a pattern."""
+    import check
+    n = len(SKIPPED)
+    ctx.extra_cov["skipped_transport_error_cases"] = n
+    if n > 5:
+        case, r = SKIPPED[0]
+        check.report_case_violation(ctx, case, r, "client Send/CloseSend returned a raw transport error on %d cases "
+                                    "of a fault-free run" % n)
+
+
 def neighbours(case, rng):
     out = []
     ops = case["ops"]
@@ -523,5 +551,218 @@ PARTIAL = ("timing: only the interleavings the Go scheduler produced under the s
 TECHNIQUE = ("Coq proof (LTS with two FIFO channels, invariants over every trace, diamond/commutation argument for the "
              "checker) + trace inclusion of the real transports' per-side observations in the model by vm_compute")
 DESIGN_REF = "DESIGN.md §8 C14"
-LEVEL_TEXT = ""
-LEVEL_NOTE = ""
+LEVEL_TEXT = ("Machine-checked Coq theorems over an executable LTS copy of the freighter stream contract (stream.go) with the "
+              "mock transport's channels, close signals and cached errors (mock/stream.go) and of the error registry "
+              "(x/go/errors/encode.go + the freighter/query/control/validate providers, tables regenerated from the Go sources "
+              "on every run): for every trace of any length and every interleaving, on every transport and both profiles, "
+              "sent = received ++ in-flight in both directions (C14_order_once); once the client has the terminal result the "
+              "handler has returned, every earlier response was received and the result is EOF for nil or matches the "
+              "handler's error, and it repeats (C14_terminal_result, C14_terminal_sticky, C14_error_matches_on_every_transport, "
+              "C14_registry_roundtrip); handler end-of-stream only after CloseSend and after every request, and Receive "
+              "commutes with CloseSend (C14_closesend_eof, C14_closesend_keeps_receive); the mock refines the documented "
+              "contract. The model is tied to /repo on every run by trace inclusion: the real mock, websocket (json, msgpack) "
+              "and gRPC (external, internal) transports are driven through generated client/handler scripts and their per-side "
+              "observations must be accepted by the checker `accepts`, which is proved to accept exactly the projections of "
+              "LTS traces (C14_accepts_sound / C14_accepts_complete) and to imply the decidable monitor ok_C14 that is also "
+              "applied directly to the implementation's observations.")
+LEVEL_NOTE = ("partial: timing — only schedules the Go scheduler produced under scripted start orders, no-wait flags and delays are "
+              "sampled against the real transports; real timeouts / TCP / WebSocket / HTTP2 failures, context cancellation, "
+              "bounded mock buffers and use of a ServerStream after its handler returned are outside the model. Trusted: Coq "
+              "kernel/vm_compute; hand-written model tied by correspondence; regex translator for the provider tables (fails "
+              "closed); harness classification of errors by stdlib errors.Is; the cockroachdb codec on internal transports is "
+              "tabulated, not modelled. websocket/gRPC are checked against the contract profile (mock against the exact one). "
+              "All theorems closed under the global context. Found and fixed by this check: F16 (Payload.Unmarshal split at "
+              "every '---': registered errors lost their type over gRPC), F17 (websocket client panicked on a second Receive "
+              "after the terminal result).")
+
+
+# --------------------------------------------------------------------------- constants from the Go sources
+_SENT = {"EOF": K_EOF, "ErrStreamClosed": K_CLOSED, "ErrNotFound": K_NOTFOUND, "ErrUniqueViolation": K_UNIQUE,
+         "ErrInvalidParameters": K_INVALID, "ErrQuery": K_QUERY, "ErrUnauthorized": K_UNAUTH, "ErrControl": K_CONTROL,
+         "ErrValidation": K_VALID, "ErrRequired": K_REQUIRED, "ErrInvalidType": K_INVTYPE, "ErrConversion": K_CONV}
+_PROVIDERS = [("freighter/go/errors.go", "encodeErr", "decodeErr"), ("x/go/query/errors.go", "encode", "decode"),
+              ("x/go/control/authority.go", "encode", "decode"), ("x/go/validate/errors.go", "encode", "decode")]
+
+
+def _strip_comments(src):
+    src = re.sub(r"/\*.*?\*/", "", src, flags=re.S)
+    return re.sub(r"//[^\n]*", "", src)
+
+
+def _func_body(src, name):
+    m = re.search(r"\nfunc %s\(" % re.escape(name), src)
+    if not m:
+        raise ValueError("func %s not found" % name)
+    i = src.index("{", src.index(")", m.end()))
+    # the body starts at the first '{' after the result list: scan to the '{' that opens the body
+    j = src.index("\n", m.end())
+    i = src.rindex("{", m.end(), j + 1)
+    depth, k = 0, i
+    while True:
+        if src[k] == "{":
+            depth += 1
+        elif src[k] == "}":
+            depth -= 1
+            if depth == 0:
+                return src[i + 1:k]
+        k += 1
+
+
+def _consts(src):
+    env = {}
+    items = []
+    for blk in re.findall(r"\bconst\s*\((.*?)\n\)", src, flags=re.S):
+        for line in blk.splitlines():
+            m = re.match(r"\s*(\w+)(?:\s+[\w.]+)?\s*=\s*(.+?)\s*$", line)
+            if m:
+                items.append((m.group(1), m.group(2)))
+    for m in re.finditer(r"^const\s+(\w+)(?:\s+[\w.]+)?\s*=\s*(.+?)\s*$", src, flags=re.M):
+        items.append((m.group(1), m.group(2)))
+    for _ in range(len(items) + 1):
+        for name, expr in items:
+            if name in env:
+                continue
+            parts = [p.strip() for p in expr.split("+")]
+            val = ""
+            ok = True
+            for p in parts:
+                if re.fullmatch(r'"[^"\\]*"', p):
+                    val += p[1:-1]
+                elif p in env:
+                    val += env[p]
+                else:
+                    ok = False
+                    break
+            if ok:
+                env[name] = val
+    return env
+
+
+def _ty(expr, env):
+    expr = expr.strip()
+    if re.fullmatch(r'"[^"\\]*"', expr):
+        return expr[1:-1]
+    if expr in env:
+        return env[expr]
+    raise ValueError("cannot evaluate payload type %r" % expr)
+
+
+def _result_kind(expr):
+    expr = expr.strip()
+    if re.fullmatch(r"errors\.New\(\w+\.Data\)", expr):
+        return 0
+    m = re.fullmatch(r"errors\.Wrapf?\((\w+),\s*\w+\.Data\)", expr)
+    name = m.group(1) if m else expr
+    if name not in _SENT:
+        raise ValueError("unknown decode result %r" % expr)
+    return _SENT[name]
+
+
+def _parse_provider(repo, rel, encname, decname):
+    src = _strip_comments(open(os.path.join(repo, rel)).read())
+    env = _consts(src)
+    parents = []
+    for m in re.finditer(r"\b(\w+)\s*=\s*errors\.Wrapf?\(\s*(\w+)\s*,", src):
+        if m.group(1) in _SENT and m.group(2) in _SENT:
+            parents.append((_SENT[m.group(1)], _SENT[m.group(2)]))
+    enc = _func_body(src, encname)
+    rules = []
+    path_type = None
+    n_ret = len(re.findall(r"\breturn\b[^\n]*(?:\n[^\n]*)*?,\s*true\b", enc))
+    pos = 0
+    for m in re.finditer(r"errors\.(CheapIs|As)\(err,\s*&?(\w+)\)\s*\{", enc):
+        tail = enc[m.end():]
+        t = re.search(r"Type:\s*([^,\n]+),", tail)
+        if not t:
+            raise ValueError("no payload type after %s in %s" % (m.group(0), rel))
+        ty = _ty(t.group(1), env)
+        if m.group(1) == "As":
+            path_type = ty
+        else:
+            if m.group(2) not in _SENT:
+                raise ValueError("unknown sentinel %s in %s" % (m.group(2), rel))
+            rules.append((_SENT[m.group(2)], ty))
+    if len(rules) + (1 if path_type else 0) != len(re.findall(r",\s*true\b", enc)):
+        raise ValueError("encode of %s has branches the translator does not understand" % rel)
+    dec = _func_body(src, decname)
+    exact, prefix = [], []
+    guard = None
+    g = re.search(r"if\s+!strings\.HasPrefix\(\w+\.Type,\s*(\w+)\)\s*\{\s*return nil, false\s*\}", dec)
+    if g:
+        guard = _ty(g.group(1), env)
+    for m in re.finditer(r"case\s+(\w+):\s*return\s+(.+?),\s*true", dec):
+        exact.append((_ty(m.group(1), env), _result_kind(m.group(2))))
+    for m in re.finditer(r"if\s+\w+\.Type\s*==\s*(\w+)\s*\{(.*?)\n\t\}", dec, flags=re.S):
+        body = m.group(2)
+        if "PathError{" in body:
+            exact.append((_ty(m.group(1), env), K_PATH))
+        else:
+            r = re.search(r"return\s+(.+?),\s*true", body)
+            exact.append((_ty(m.group(1), env), _result_kind(r.group(1))))
+    for m in re.finditer(r"if\s+strings\.HasPrefix\(\w+\.Type,\s*(\w+)\)\s*\{\s*return\s+(.+?),\s*true", dec):
+        prefix.append((_ty(m.group(1), env), _result_kind(m.group(2))))
+    last = re.search(r"\n\treturn\s+(.+?),\s*true\s*$", dec.rstrip())
+    if last:
+        if guard is None:
+            raise ValueError("unguarded catch-all in decode of %s" % rel)
+        prefix.append((guard, _result_kind(last.group(1))))
+    if guard is not None:
+        for ty, _k in exact + prefix:
+            if not ty.startswith(guard):
+                raise ValueError("decode case %r of %s is outside its guard %r" % (ty, rel, guard))
+    n_true = len(re.findall(r",\s*true\b", dec))
+    n_path_extra = sum(1 for _t, k in exact if k == K_PATH)  # the path block has two `, true` returns
+    if len(exact) + len(prefix) + n_path_extra != n_true:
+        raise ValueError("decode of %s has %d accepting returns, translator understood %d" % (
+            rel, n_true, len(exact) + len(prefix) + n_path_extra))
+    return parents, rules, exact, prefix, path_type
+
+
+def consts(repo):
+    parents, provs, path_type = [], [], None
+    for rel, e, d in _PROVIDERS:
+        ps, rules, exact, prefix, pt = _parse_provider(repo, rel, e, d)
+        parents += ps
+        provs.append((rules, exact, prefix))
+        path_type = pt or path_type
+    if path_type is None:
+        raise ValueError("no PathError payload type found")
+    um = _func_body(_strip_comments(open(os.path.join(repo, "x/go/errors/encode.go")).read()).replace(
+        "func (p *Payload) Unmarshal(", "func Unmarshal("), "Unmarshal")
+    if re.search(r'strings\.SplitN\(d,\s*"---",\s*2\)', um) and "len(a) != 2" in um:
+        split_all = False
+    elif re.search(r'strings\.Split\(d,\s*"---"\)', um) and "len(a) != 2" in um:
+        split_all = True
+    else:
+        raise ValueError("Payload.Unmarshal has a shape the translator does not understand")
+    if '"---"' not in open(os.path.join(repo, "x/go/errors/encode.go")).read().split("func (p Payload) Error()")[1].split("\n")[0]:
+        raise ValueError("Payload.Error no longer joins with the separator")
+
+    def s(x):
+        return '"%s"' % x
+
+    def lst(items):
+        return "[" + "; ".join(items) + "]"
+    out = ["(* Generated/Consts_C14.v — written by runner/props/C14.py consts() from the Go sources of the",
+           "   error providers registered with x/go/errors (freighter/go/errors.go, x/go/query/errors.go,",
+           "   x/go/control/authority.go, x/go/validate/errors.go) and x/go/errors/encode.go. Do not edit. *)",
+           "From Coq Require Import List NArith String.", "Import ListNotations.",
+           "Local Open Scope string_scope.", "Local Open Scope N_scope.", "",
+           "(* sentinel kinds: " + " ".join("%d %s" % (v, k) for k, v in sorted(_SENT.items(), key=lambda kv: kv[1])) +
+           " 13 validate.PathError 16 context.Canceled 17 context.DeadlineExceeded *)", "",
+           "(* X = errors.Wrap(Y, ...) declarations: (X, Y) *)",
+           "Definition parents : list (N * N) :=",
+           "  " + lst("(%d, %d)" % p for p in sorted(set(parents))) + ".", "",
+           "(* one entry per registered provider: encode rules in source order (sentinel tested with CheapIs,",
+           "   payload type), decode exact-type cases, decode prefix fall-backs (0 = errors.New(data)) *)",
+           "Definition providers : list (list (N * string) * list (string * N) * list (string * N)) :=",
+           "  [ " + ";\n    ".join(
+               "(%s,\n     %s,\n     %s)" % (lst("(%d, %s)" % (k, s(t)) for k, t in rules),
+                                            lst("(%s, %d)" % (s(t), k) for t, k in exact),
+                                            lst("(%s, %d)" % (s(t), k) for t, k in prefix))
+               for rules, exact, prefix in provs) + " ].", "",
+           "Definition path_type : string := %s." % s(path_type), "",
+           '(* Payload.Unmarshal: true = strings.Split(d, "---") with len != 2 => unknown;',
+           '   false = strings.SplitN(d, "---", 2) *)',
+           "Definition unmarshal_split_all : bool := %s." % ("true" if split_all else "false"), ""]
+    return "\n".join(out)
